@@ -33,12 +33,20 @@ func histOnly(digests [][]byte) *history.HistoryTree {
 	return t
 }
 
-func snapH(h []byte) *balloon.Snapshot { return &balloon.Snapshot{HistoryDigest: h} }
+func snapH(h []byte, v uint64) *balloon.Snapshot {
+	return &balloon.Snapshot{HistoryDigest: h, Version: v}
+}
 
-// verifyInc returns (accepted, panicked).
+// verifyInc checks proof p against the two digests; the snapshots carry the versions the digests were
+// issued for by default (the proof's own Start/End), see verifyIncAt.
 func verifyInc(p *balloon.IncrementalProof, hi, hj []byte) (bool, bool) {
+	return verifyIncAt(p, hi, hj, p.Start, p.End)
+}
+
+// verifyIncAt: the snapshots carry versions vi, vj (what a client holding snapshots vi and vj passes in).
+func verifyIncAt(p *balloon.IncrementalProof, hi, hj []byte, vi, vj uint64) (bool, bool) {
 	var ok bool
-	pan, _ := lib.Recover(func() { ok = p.Verify(snapH(hi), snapH(hj)) })
+	pan, _ := lib.Recover(func() { ok = p.Verify(snapH(hi, vi), snapH(hj, vj)) })
 	return ok && !pan, pan
 }
 
@@ -192,7 +200,8 @@ func RunC03(c *lib.Ctx) {
 			neg := func(kind string, pp *balloon.IncrementalProof, hi, hj []byte, detail string) bool {
 				c.Count("negatives", 1)
 				c.Seen("negative_kinds", kind)
-				if ok, _ := verifyInc(pp, hi, hj); ok {
+				// the client holds the snapshots of versions i and j, whatever the proof claims
+				if ok, _ := verifyIncAt(pp, hi, hj, i, j); ok {
 					fail("C03:accepted:"+kind, fmt.Sprintf("pair (%d,%d): proof accepted although %s", i, j, detail))
 					return false
 				}
@@ -234,6 +243,21 @@ func RunC03(c *lib.Ctx) {
 					}
 					if k > i && !ok {
 						fail("C03:fork-sharing-prefix-rejected", fmt.Sprintf("pair (%d,%d): a log sharing our prefix up to %d (diverging at %d) is rejected as inconsistent with version %d", i, j, k-1, k, i))
+						return
+					}
+				}
+			}
+			// both digests replaced by the same foreign value (only meaningful for i == j)
+			if i == j {
+				for _, f := range forksL {
+					if uint64(f.k) <= i {
+						if !neg("both-digests-of-fork", proof, f.roots[i], f.roots[i], fmt.Sprintf("both digests come from a log that diverged at %d", f.k)) {
+							return
+						}
+					}
+				}
+				if k := uint64(r.Intn(n)); k != i {
+					if !neg("both-digests-of-other-version", proof, H(k), H(k), fmt.Sprintf("both digests are those of version %d", k)) {
 						return
 					}
 				}
